@@ -219,6 +219,15 @@ def main():
             for y in calls.get(x, []):
                 if y not in leaned_on and y not in carriers:
                     leaned_on.add(y); todo.append(y)
+        # functions / arms whose extraction failed (anchor lost) are verified as trusted externals resp. left out, so that the rest of the unit is still decided: a property is
+        # undecided (INFRA) only if it depends on one of them - it carries a clause of this property, one of this property's functions is or calls it
+        for lname, linfo in r.get("lost", {}).items():
+            short = lname.split(":", 1)[-1]
+            dep = any(l.startswith(prop + ".") for l in linfo.get("labels", [])) or lname in carriers or lname in leaned_on
+            if prop == "C10":
+                dep = dep or lname in carriers or any(short.lower() == x.replace("arm_", "").replace("op_", "").replace("_", "") for x in cfg.get("reachable", {}).get(r["unit"], []) if x.startswith(("arm_", "op_")))
+            if dep:
+                infra.append("unit %s: %s could not be extracted (%s): what it carries for %s is undecided" % (r["unit"], lname, linfo.get("reason", "")[:200], prop))
         for f in r["failures"]:
             lab = f["label"]
             mine = lab.startswith(prop + ".") and (prop != "C10" or f["fn"] in carriers or f.get("origin_kind") in ("spec", "raw"))
